@@ -308,3 +308,53 @@ func fieldNonNilFact(typ, field string) Atom {
 }
 
 func ordinal(i int) string { return fmt.Sprintf("#%d", i+1) }
+
+// resultValues resolves the idx-th result of a return, seeing through the defer-spilled form
+// (named result cell stored just before rundefers and re-loaded for the return).
+func resultValues(ret *ssa.Return, idx int) []ssa.Value {
+	v := ret.Results[idx]
+	u, ok := v.(*ssa.UnOp)
+	if !ok || u.Op != token.MUL {
+		return []ssa.Value{v}
+	}
+	a, ok := u.X.(*ssa.Alloc)
+	if !ok {
+		return []ssa.Value{v}
+	}
+	b := ret.Block()
+	pos := -1
+	for i, ins := range b.Instrs {
+		if ins == ssa.Instruction(u) {
+			pos = i
+		}
+	}
+	for i := pos - 1; i >= 0; i-- {
+		if st, ok := b.Instrs[i].(*ssa.Store); ok && st.Addr == ssa.Value(a) {
+			return []ssa.Value{st.Val}
+		}
+	}
+	// no store in this block: any store in the function may reach
+	var out []ssa.Value
+	for _, ref := range *a.Referrers() {
+		if st, ok := ref.(*ssa.Store); ok && st.Addr == ssa.Value(a) {
+			out = append(out, st.Val)
+		}
+	}
+	if len(out) == 0 {
+		out = append(out, v)
+	}
+	return out
+}
+
+// lastResultAll: every possible value of the last result of ret satisfies pred.
+func lastResultAll(ret *ssa.Return, pred func(ssa.Value) bool) bool {
+	if len(ret.Results) == 0 {
+		return false
+	}
+	for _, v := range resultValues(ret, len(ret.Results)-1) {
+		if !pred(v) {
+			return false
+		}
+	}
+	return true
+}
